@@ -114,12 +114,17 @@ pub struct MonState {
     /// hash of (core, hq) before the current client request (submit atomicity)
     pre_request: BTreeMap<u8, u64>,
     known_tasks_per_job: BTreeMap<u32, BTreeSet<u32>>,
+    /// conditions that currently hold (so that a state invariant fires once, at the step that
+    /// breaks it, and its site can name that step)
+    bad_now: BTreeSet<String>,
 }
 
 pub struct Monitor {
     pub props: Vec<Prop>,
     pub s: MonState,
     pub found: Vec<Found>,
+    /// what kind of step is being judged (mechanism label for sites)
+    step_label: String,
 }
 
 fn tid(job: u32, task: u32) -> TaskId {
@@ -132,6 +137,7 @@ impl Monitor {
             props: props.to_vec(),
             s: MonState::default(),
             found: Vec::new(),
+            step_label: String::new(),
         }
     }
 
@@ -151,6 +157,15 @@ impl Monitor {
                 site: site.into(),
                 detail,
             });
+        }
+    }
+
+    /// Fire a state-invariant violation only at the step where the condition `key` becomes true.
+    fn v_edge(&mut self, seen: &mut BTreeSet<String>, key: String, prop: Prop, clause: &'static str, detail: String) {
+        seen.insert(key.clone());
+        if !self.s.bad_now.contains(&key) {
+            let site = format!("after-{}", self.step_label);
+            self.v(prop, clause, site, detail);
         }
     }
 
@@ -235,6 +250,8 @@ impl Monitor {
         let mut live_task_events: Vec<String> = Vec::new();
         let mut journal_task_events: Vec<String> = Vec::new();
         let pre_status = self.s.st.clone();
+        let pre_tasks = self.s.tasks.clone();
+        self.step_label = step_label(ev, obs);
 
         for o in obs {
             match o {
@@ -543,7 +560,7 @@ impl Monitor {
 
         // ---- C07: worker loss ----
         if let Some((_slot, worker, reason)) = kill {
-            self.check_kill(sys, worker, reason, &pre_status, &step_failed, pre, post);
+            self.check_kill(sys, worker, reason, &pre_status, &pre_tasks, &step_failed, pre, post);
         }
         // crash counter in the core equals the reference
         if self.on(Prop::C07) {
@@ -629,7 +646,10 @@ impl Monitor {
                         .rev()
                         .find(|e| e.task == *task_id && e.worker == root)
                         .map(|e| e.instance);
-                    if launched != Some(instance_id.as_num()) {
+                    // the statement is about execution ids growing; a report that names a LARGER id
+                    // than the execution has cannot break that (later ids derive from the
+                    // reported one), a smaller one can (restart resubmits with reported + 1)
+                    if launched.is_some_and(|l| instance_id.as_num() < l) {
                         let d = format!("TaskStarted({task_id}) reports instance {} but worker {root} launched {launched:?}", instance_id.as_num());
                         drop(l);
                         self.v(Prop::C06, "started-instance-mismatch", "TaskStarted", d);
@@ -900,6 +920,7 @@ impl Monitor {
         worker: u32,
         reason: LostWorkerReason,
         pre_status: &BTreeMap<TaskId, TStatus>,
+        pre_tasks: &BTreeMap<TaskId, TaskMon>,
         step_failed: &[TaskId],
         pre: Option<&KeyParts>,
         post: &KeyParts,
@@ -907,9 +928,9 @@ impl Monitor {
         // R = tasks reported running with this worker as (root) worker
         let mut expected_failed: BTreeSet<TaskId> = BTreeSet::new();
         let mut ambiguous: BTreeSet<TaskId> = BTreeSet::new();
-        let ids: Vec<TaskId> = self.s.tasks.keys().copied().collect();
+        let ids: Vec<TaskId> = pre_tasks.keys().copied().collect();
         for t in ids {
-            let tm = self.s.tasks.get(&t).unwrap().clone();
+            let tm = pre_tasks.get(&t).unwrap().clone();
             if pre_status.get(&t) != Some(&TStatus::Started) || !tm.running_on.contains(&worker) {
                 continue;
             }
@@ -1156,6 +1177,7 @@ impl Monitor {
 
     fn check_reservations(&mut self, sys: &System, post: &KeyParts) {
         let table = sys.server.request_table();
+        let mut seen: BTreeSet<String> = BTreeSet::new();
         // no id anywhere in the scheduler's structures without a task behind it
         {
             let known: BTreeSet<TaskId> = post.core.tasks.iter().map(|t| t.id).collect();
@@ -1197,8 +1219,14 @@ impl Monitor {
             }
             for (t, place) in dangling {
                 let d = format!("id {t} is in {place} but the task no longer exists");
-                self.v(Prop::C08, "dangling-id", place, d.clone());
-                self.v(Prop::C05, "dangling-id", place, d);
+                let key = format!("dangling:{t}:{place}");
+                let was = self.s.bad_now.contains(&key);
+                seen.insert(key);
+                if !was {
+                    let site = format!("{place}-after-{}", self.step_label);
+                    self.v(Prop::C08, "dangling-id", site.clone(), d.clone());
+                    self.v(Prop::C05, "dangling-id", site, d);
+                }
             }
             // a queued id must belong to a task that may be queued
             for q in &post.core.queues {
@@ -1211,8 +1239,14 @@ impl Monitor {
                             )
                         {
                             let d = format!("task {t} is in the ready queue while {:?}", x.state);
-                            self.v(Prop::C05, "queued-while-placed", state_name(&x.state), d.clone());
-                            self.v(Prop::C06, "queued-while-placed", state_name(&x.state), d);
+                            let key = format!("queued-placed:{t}");
+                            let was = self.s.bad_now.contains(&key);
+                            seen.insert(key);
+                            if !was {
+                                let site = format!("{}-after-{}", state_name(&x.state), self.step_label);
+                                self.v(Prop::C05, "queued-while-placed", site.clone(), d.clone());
+                                self.v(Prop::C06, "queued-while-placed", site, d);
+                            }
                         }
                     }
                 }
@@ -1271,27 +1305,37 @@ impl Monitor {
                             w.id, assigned_set, expected_set
                         );
                         let stale: Vec<_> = assigned_set.difference(&expected_set).collect();
-                        let site = if !stale.is_empty() { "stale-id-in-worker-set" } else { "task-missing-from-worker-set" };
-                        self.v(Prop::C05, "assignment-set-inconsistent", site, d.clone());
+                        let kind = if !stale.is_empty() { "stale-id-in-worker-set" } else { "task-missing-from-worker-set" };
+                        let key = format!("aset:{}:{kind}", w.id);
+                        let was = self.s.bad_now.contains(&key);
+                        seen.insert(key);
+                        if !was {
+                            let site = format!("{kind}-after-{}", self.step_label);
+                            self.v(Prop::C05, "assignment-set-inconsistent", site, d.clone());
+                        }
                     }
                     for (rid, u) in used.iter().enumerate() {
                         let full = w.resources.get(rid).copied().unwrap_or(0);
                         let fr = free.get(rid).copied().unwrap_or(0);
                         if *u > full {
-                            self.v(
-                                Prop::C05,
-                                "overbooked",
-                                format!("resource-{rid}"),
-                                format!("worker {} resource {rid}: placed tasks need {u}, worker provides {full}", w.id),
-                            );
+                            let key = format!("overbooked:{}:{rid}", w.id);
+                            let d = format!("worker {} resource {rid}: placed tasks need {u}, worker provides {full}", w.id);
+                            self.v_edge(&mut seen, key, Prop::C05, "overbooked", d);
                         }
                         if full.checked_sub(*u) != Some(fr) && fr != u64::MAX {
                             let d = format!(
                                 "worker {} resource {rid}: provides {full}, placed tasks need {u}, free counter says {fr}",
                                 w.id
                             );
-                            self.v(Prop::C05, "free-resources-differ", if full.saturating_sub(*u) > fr { "leak" } else { "excess" }, d.clone());
-                            self.v(Prop::C08, "resources-not-released", if full.saturating_sub(*u) > fr { "leak" } else { "excess" }, d);
+                            let kind = if full.saturating_sub(*u) > fr { "leak" } else { "excess" };
+                            let key = format!("free:{}:{rid}:{kind}", w.id);
+                            let was = self.s.bad_now.contains(&key);
+                            seen.insert(key);
+                            if !was {
+                                let site = format!("{kind}-after-{}", self.step_label);
+                                self.v(Prop::C05, "free-resources-differ", site.clone(), d.clone());
+                                self.v(Prop::C08, "resources-not-released", site, d);
+                            }
                         }
                     }
                 }
@@ -1350,6 +1394,7 @@ impl Monitor {
                 }
             }
         }
+            self.s.bad_now = seen;
     }
 
     fn check_worker_resources(&mut self, sys: &System, post: &KeyParts) {
@@ -1640,4 +1685,60 @@ pub fn find_in_core(post: &KeyParts, t: TaskId) -> Option<String> {
         }
     }
     None
+}
+
+/// Mechanism label of a step: which kind of event it was and what it carried.
+pub fn step_label(ev: Option<Ev>, obs: &[Obs]) -> String {
+    match ev {
+        None => "init".into(),
+        Some(Ev::Sched) => "sched".into(),
+        Some(Ev::ToWorker(_)) => {
+            let k = obs.iter().find_map(|o| if let Obs::ToWorker { kind, .. } = o { Some(*kind) } else { None }).unwrap_or("?");
+            format!("worker<-{k}")
+        }
+        Some(Ev::ToServer(_)) => {
+            let mut kinds: Vec<&str> = Vec::new();
+            for o in obs {
+                if let Obs::ToServer { kind, tasks, .. } = o {
+                    if tasks.is_empty() {
+                        kinds.push(kind);
+                    }
+                    for (_, k) in tasks {
+                        kinds.push(k);
+                    }
+                }
+            }
+            kinds.dedup();
+            format!("server<-{}", kinds.join("+"))
+        }
+        Some(Ev::EndOk(_)) | Some(Ev::EndErr(_)) | Some(Ev::EndStopped(_)) | Some(Ev::Flushed(_)) => "exec-end".into(),
+        Some(Ev::TimeLimit(_)) => "time-limit".into(),
+        Some(Ev::Kill(..)) => "worker-lost".into(),
+        Some(Ev::Join(_)) => "worker-joined".into(),
+        Some(Ev::Client(_)) => {
+            let k = obs
+                .iter()
+                .find_map(|o| if let Obs::ClientRequest { req, .. } = o { Some(req_kind(req)) } else { None })
+                .unwrap_or("?");
+            format!("client:{k}")
+        }
+        Some(Ev::FlushDone) => "flush-done".into(),
+    }
+}
+
+pub fn req_kind(r: &Req) -> &'static str {
+    match r {
+        Req::Submit(_) => "submit",
+        Req::OpenJob { .. } => "open",
+        Req::CloseJob(_) => "close",
+        Req::Cancel(_) | Req::CancelAll => "cancel",
+        Req::Forget(_) => "forget",
+        Req::JobInfo | Req::JobInfoLast(_) => "info",
+        Req::JobDetail(_) => "detail",
+        Req::Explain { .. } => "explain",
+        Req::Prune => "prune",
+        Req::Flush => "flush",
+        Req::WorkerList | Req::WorkerInfo(_) => "workers",
+        Req::StopWorker(_) => "stop-worker",
+    }
 }
